@@ -101,7 +101,9 @@ def run(chk):
     # ---- random token lines
     n = 3000 if chk.tier == 'quick' else 60000
     words = [t for _, t in tok_texts()]
-    seps = [' ', ' ', '\n', '\n', '\r\n', ' /*c*/ ', ' /* c\n */ ', ' //c\n', '\t', ' /***/ ', ' /* * */ ', '/**/']
+    seps = [' ', ' ', '\n', '\n', '\r\n', ' /*c*/ ', ' /* c\n */ ', ' //c\n', '\t', ' /***/ ', ' /* * */ ', '/**/',
+            # blanks that are not the spec's (outside the oracle; the model knows what the scanner does with them)
+            '\u00a0\n', '\u2028', '\x0b\n', '\u0085 ', '\u3000\n', '\x0c']
     rc = []
     for _ in range(n):
         s = ''.join(rng.choice(words) + rng.choice(seps) for _ in range(rng.randint(2, 9)))
